@@ -654,6 +654,12 @@ theorem denote_flushB (b : Bounds α) (t : Table α) (g : Gr) :
   rw [find?_map_keep (fun r : Row α => { r with b := b }) (fun _ => rfl)]
   cases Table.find? t g <;> rfl
 
+theorem denote_assertAll (b : Bounds α) (t : Table α) (g : Gr) :
+    Table.denote (Table.assertAll b t) g = (Table.denote t g).map (fun _ => (b, b)) := by
+  unfold Table.assertAll Table.denote
+  rw [find?_map_keep (fun r : Row α => (⟨r.g, b, b⟩ : Row α)) (fun _ => rfl)]
+  cases Table.find? t g <;> rfl
+
 /-- `add_data` as a map operation: plain update at `g` -/
 theorem denote_addData (w : Bounds α) (t : Table α) (g : Gr) (b : Bounds α) (g' : Gr) :
     Table.denote (Table.addData w t g b) g' = if g' = g then some (b, b) else Table.denote t g' := by
@@ -843,6 +849,11 @@ theorem _root_.LNN.TEq.flushB {t t' : Table α} (h : TEq t t') (b : Bounds α) :
     TEq (Table.flushB b t) (Table.flushB b t') := by
   intro g
   rw [denote_flushB, denote_flushB, h g]
+
+theorem _root_.LNN.TEq.assertAll {t t' : Table α} (h : TEq t t') (b : Bounds α) :
+    TEq (Table.assertAll b t) (Table.assertAll b t') := by
+  intro g
+  rw [denote_assertAll, denote_assertAll, h g]
 
 theorem _root_.LNN.TEq.getD {t t' : Table α} (h : TEq t t') (w : Bounds α) (g : Gr) :
     Table.getD w t g = Table.getD w t' g := by
